@@ -73,6 +73,7 @@ use super::*;
 use super::pair::*;
 #[allow(unused_imports)] use super::shim::Decimal;
 //%include mlem_ledger.rs
+//%include mlem_route.rs
 }
 } // verus!
 fn main() {}
